@@ -638,6 +638,61 @@ fn specials(ctx: &Ctx) -> u64 {
     for (label, text) in raw_cases {
         n += check_roundtrip_only(ctx, &format!("raw|{label}"), &text);
     }
+    // a comment inside character data is not content: the document loads to the model of the same document without it,
+    // with one value per element, and references are listed once under the whole text
+    let split_cases: Vec<(&str, &str)> = vec![
+        ("<CATEGORY>a<!--c-->b</CATEGORY>", "<CATEGORY>ab</CATEGORY>"),
+        ("<CATEGORY><!--c-->ab</CATEGORY>", "<CATEGORY>ab</CATEGORY>"),
+        ("<CATEGORY>ab<!--c--></CATEGORY>", "<CATEGORY>ab</CATEGORY>"),
+        ("<CATEGORY>a<!--c-->b<!--d-->c</CATEGORY>", "<CATEGORY>abc</CATEGORY>"),
+        ("<CATEGORY> a<!--c-->b </CATEGORY>", "<CATEGORY>ab</CATEGORY>"),
+        ("<ADMIN-DATA><DOC-REVISIONS><DOC-REVISION><REVISION-LABEL>1.0.0;a&amp;<!--c-->amp;&#38;<!--d-->b</REVISION-LABEL></DOC-REVISION></DOC-REVISIONS></ADMIN-DATA>", "<ADMIN-DATA><DOC-REVISIONS><DOC-REVISION><REVISION-LABEL>1.0.0;a&amp;amp;&#38;b</REVISION-LABEL></DOC-REVISION></DOC-REVISIONS></ADMIN-DATA>"),
+        ("<ELEMENTS><SYSTEM><SHORT-NAME>s<!--c-->1</SHORT-NAME><PNC-VECTOR-LENGTH>1<!--c-->2</PNC-VECTOR-LENGTH><FIBEX-ELEMENTS><FIBEX-ELEMENT-REF-CONDITIONAL><FIBEX-ELEMENT-REF DEST=\"CAN-CLUSTER\">/p<!--c-->/c1</FIBEX-ELEMENT-REF></FIBEX-ELEMENT-REF-CONDITIONAL></FIBEX-ELEMENTS></SYSTEM><CAN-CLUSTER><SHORT-NAME><!--c-->c<!--d-->1</SHORT-NAME></CAN-CLUSTER></ELEMENTS>",
+         "<ELEMENTS><SYSTEM><SHORT-NAME>s1</SHORT-NAME><PNC-VECTOR-LENGTH>12</PNC-VECTOR-LENGTH><FIBEX-ELEMENTS><FIBEX-ELEMENT-REF-CONDITIONAL><FIBEX-ELEMENT-REF DEST=\"CAN-CLUSTER\">/p/c1</FIBEX-ELEMENT-REF></FIBEX-ELEMENT-REF-CONDITIONAL></FIBEX-ELEMENTS></SYSTEM><CAN-CLUSTER><SHORT-NAME>c1</SHORT-NAME></CAN-CLUSTER></ELEMENTS>"),
+        ("<ELEMENTS><ECUC-MODULE-CONFIGURATION-VALUES><SHORT-NAME>m</SHORT-NAME><IMPLEMENTATION-CONFIG-VARIANT>VARIANT-<!--c-->PRE-COMPILE</IMPLEMENTATION-CONFIG-VARIANT><CONTAINERS><ECUC-CONTAINER-VALUE><SHORT-NAME>k</SHORT-NAME><PARAMETER-VALUES><ECUC-TEXTUAL-PARAM-VALUE><VALUE>a <!--c--> b</VALUE></ECUC-TEXTUAL-PARAM-VALUE></PARAMETER-VALUES></ECUC-CONTAINER-VALUE></CONTAINERS></ECUC-MODULE-CONFIGURATION-VALUES></ELEMENTS>",
+         "<ELEMENTS><ECUC-MODULE-CONFIGURATION-VALUES><SHORT-NAME>m</SHORT-NAME><IMPLEMENTATION-CONFIG-VARIANT>VARIANT-PRE-COMPILE</IMPLEMENTATION-CONFIG-VARIANT><CONTAINERS><ECUC-CONTAINER-VALUE><SHORT-NAME>k</SHORT-NAME><PARAMETER-VALUES><ECUC-TEXTUAL-PARAM-VALUE><VALUE>a  b</VALUE></ECUC-TEXTUAL-PARAM-VALUE></PARAMETER-VALUES></ECUC-CONTAINER-VALUE></CONTAINERS></ECUC-MODULE-CONFIGURATION-VALUES></ELEMENTS>"),
+    ];
+    for (with, without) in split_cases {
+        let (tw, to) = (pk(with), pk(without));
+        n += check_roundtrip_only(ctx, "raw|comment-inside-character-data", &tw);
+        for strict in [true, false] {
+            let mode = if strict { "strict" } else { "lenient" };
+            n += 1;
+            let w = || json!({"generator": "raw", "text": tw, "same_document_without_comments": to});
+            let (a, b) = match (load(tw.as_bytes(), strict), load(to.as_bytes(), strict)) {
+                (Ok(Ok(a)), Ok(Ok(b))) => (a, b),
+                (a, b) => {
+                    let eb = format!("{:?}", b.as_ref().map(|r| r.as_ref().map(|_| ()).map_err(|e| e.to_string())));
+                    let (ra, rb) = (a.map(|r| r.is_ok()), b.map(|r| r.is_ok()));
+                    if rb != Ok(true) {
+                        ctx.machinery_error(format!("comment-split case: the document without comments does not load ({mode}): {without}: {eb}"));
+                    } else {
+                        ctx.violation(format!("raw|comment-inside-character-data|accepted-only-without-the-comment|{mode}"), json!({"kind": "doc", "doc": w(), "with": format!("{ra:?}")}));
+                    }
+                    continue;
+                }
+            };
+            let strip = |n: &Node| -> Node {
+                fn rec(n: &Node) -> Node {
+                    let mut o = n.clone();
+                    o.comment = None;
+                    o.items = n.items.iter().map(|i| match i { Item::Node(c) => Item::Node(rec(c)), t => t.clone() }).collect();
+                    o
+                }
+                rec(n)
+            };
+            let (sa, sb) = (strip(&snapshot_model(&a.model)), strip(&snapshot_model(&b.model)));
+            if let Some(d) = sa.diff(&sb, "") {
+                ctx.violation(format!("raw|comment-inside-character-data|model-differs-from-the-document-without-comments|{mode}|{}", diff_class(&d)), json!({"kind": "doc", "doc": w(), "diff": d}));
+            }
+            if !a.warnings.is_empty() {
+                ctx.violation(format!("raw|comment-inside-character-data|warnings|{mode}"), json!({"kind": "doc", "doc": w()}));
+            }
+            for p in all_invariants(&a.model, &Scope::default()) {
+                ctx.violation(format!("raw|comment-inside-character-data|invariant|{}|{mode}", p.key), json!({"kind": "doc", "doc": w(), "detail": p.detail}));
+            }
+        }
+    }
     for (label, doc) in cases {
         for o in [
             PrintOpts::default(),
